@@ -524,7 +524,8 @@ pub fn run(ctx: &mut Ctx) -> (&'static str, String, bool) {
             }
         }
     }
-    if !miri && ctx.part.counters.get("drops_on_write-half").copied().unwrap_or(0) == 0 || ctx.part.counters.get("drops_on_read-half").copied().unwrap_or(0) == 0 {
+    // (a Miri shard holds a slice of the plans; the native stages of the same run carry this coverage requirement)
+    if !miri && (ctx.part.counters.get("drops_on_write-half").copied().unwrap_or(0) == 0 || ctx.part.counters.get("drops_on_read-half").copied().unwrap_or(0) == 0) {
         ctx.inconclusive("the drop plans never hit both suspension points (read half and write half)");
     }
     ctx.assume("cooperative single-task schedules: the read future is polled by hand under a paused-clock current-thread runtime and dropped right after a poll that returned Pending; suspension points are the scripted transport's Pending returns");
